@@ -488,6 +488,8 @@ def run(tier, seed, drv):
         for e in errs:
             hit = False
             for (f, line) in e["spans"]:
+                if not f.endswith(f"{tgt}/src/main.rs"):
+                    continue
                 if tgt == "c10_const":
                     for (ci, ii), ln in clinemap.items():
                         if ln == line:
